@@ -96,7 +96,7 @@ def run_unit(u, rec):
             sc = max(1.0, float(np.max(np.abs(b[fin])))) if fin.any() else 1.0
             err = float(np.max(np.abs(a[fin] - b[fin]))) if fin.any() else 0.0
             rec.close(err, 1e-11 * sc, f"C19/late_x64/fidelity/{name}",
-                      "a session that enables x64 after importing the library computes with less than double precision (something was frozen at import time)", key=it64["key"], scale=sc)
+                      "a session that enables x64 after importing the library computes with less than double precision (something was frozen at import time or memoised during the preceding single-precision use)", key=it64["key"], scale=sc)
     rec.check(r32["default_float"] == "float32" and not r32["x64"], "C19/session/default_is_float32", "the default session is not single precision", got=r32["default_float"])
     rec.check(r64["default_float"] == "float64" and r64["x64"], "C19/session/x64_is_float64", "the x64 session is not double precision", got=r64["default_float"])
     t64 = {json.dumps(it["key"]): it for it in r64["items"]}
